@@ -375,16 +375,23 @@ def make_app(world, a):
             w.s.emit("app_ans", a=self.vname, m=abs_from_msg(message))
             self.unexpected.append(message)
 
+        def send_answer(self, ans):
+            """every answer the application hands to the node, with the outcome recorded"""
+            try:
+                super().send_answer(ans)
+            except N.node.NotRoutable:
+                w.s.emit("submit", a=self.vname, m=abs_from_msg(ans), r="NotRoutable")
+                raise
+            except Exception as e:
+                w.s.emit("submit", a=self.vname, m=abs_from_msg(ans), r=type(e).__name__)
+                raise
+            w.s.emit("submit", a=self.vname, m=abs_from_msg(ans), r="ok")
+
         def submit(self, ans):
-            """send_answer with the outcome recorded"""
             try:
                 self.send_answer(ans)
-                r = "ok"
-            except N.node.NotRoutable:
-                r = "NotRoutable"
+                return "ok"
             except Exception as e:
-                r = type(e).__name__
-            w.s.emit("submit", a=self.vname, m=abs_from_msg(ans), r=r)
-            return r
+                return type(e).__name__
 
     return RecApp()
